@@ -37,13 +37,15 @@ META = {
                    "schedule, replayed without CrossHair.",
     "assumptions": [
         "granularity: parent and workers interleave only at queue get/put, process start, exit-code visibility and consumer yields",
-        "stand-in for multiprocessing: FIFO queues; an item put by a worker reaches the queue at the worker's next queue "
-        "operation or regular exit (multiprocessing joins the feeder thread at exit) and is lost if the worker dies through os._exit",
+        "stand-in for multiprocessing: FIFO queues; an item put by a worker is pickled by the feeder when it leaves the worker (at "
+        "the worker's next queue operation or regular exit; what cannot be pickled is dropped there; what is still buffered is lost "
+        "if the worker dies through os._exit) and unpickled by the parent; SimpleQueue = synchronous 64 KiB pipe whose put never "
+        "returns when the pipe is full and no reader has been started",
         "no signals, no wall-clock timeout branch (task_timeout), no externally killed workers",
         "logging disabled; tracing connector is annet's no-op default",
     ],
     "outside": ["OS-level pipe behaviour", "more than the stated ids/pool/decisions", "KeyboardInterrupt handling"],
-    "bounds": {"quick": "n in {2,3} ids, pool 2, max_tasks in {1,2,25}, K=6 decisions + tail policy",
+    "bounds": {"quick": "n in {2,3} ids, pool 2, max_tasks in {1,2,25}, tasks: all succeed / id 0 raises / last raises / id 0 returns a container with an unpicklable element, K=6 decisions + tail policy; big-ids: 40 KB ids, K=3",
                "thorough": "n in {2,3,4}, pool in {2,3}, max_tasks in {1,2,25}, K=8 decisions + tail policy"},
 }
 
